@@ -96,14 +96,15 @@ def check(facts, rep, tier, cfg):
             continue
         bad = None
         for ef in effs:
-            order = [idx(ef, "flag:set", exact=True), idx(ef, "outq:close"), idx(ef, "ws:poll_close"), idx(ef, "map:drain")]
+            order = [idx(ef, "flag:set", exact=True), idx(ef, "outq:close"), idx(ef, "ws:poll_close"), idx(ef, "map:drain"), idx(ef, "dropq:close")]
             if any(o is None for o in order[1:]) or [o for o in order if o is not None] != sorted(o for o in order if o is not None):
                 bad = ef
                 break
         if bad:
             rep.bad("C08.R1", "order/%s" % label, where,
                     "teardown milestones missing or out of order on a path (flag=%s): %s; required order: closed-flag "
-                    "on every established slot, close outbound queue, ws.poll_close, drain flow table" % (bool(val), list(bad)))
+                    "on every established slot, close outbound queue, ws.poll_close, drain flow table, close the dropped-flows queue "
+                    "(otherwise the final drain of that queue waits for every stream handle to be dropped)" % (bool(val), list(bad)))
         else:
             rep.ok("C08.R1", "order/%s" % label, where, "%d path classes, milestones in order" % len(effs))
         # forbid-writes loop present (may be skipped only when the table is empty: flag:set appears on some path)
